@@ -275,6 +275,49 @@ func reportRankBuilders(w *World, r *Report, fns map[string]*ssa.Function, build
 				break
 			}
 			lw := linAtom("call:builtin len(p0)")
+			if k, isK := constInt64(mk.Len); isK && k == 0 {
+				// append form: the index starts empty; one entry is appended in every iteration of the full-range loop over
+				// the words and the grand total is appended after the loop under the trailing option
+				inLoop, after, badA := 0, 0, ""
+				var loopBlk *ssa.BasicBlock
+				for _, e := range entries {
+					call, ok := e.ins.(*ssa.Call)
+					if !ok {
+						badA = "the index starts empty but an entry is stored by position at " + w.InstrPos(e.ins)
+						continue
+					}
+					if ai.IVPhi != nil && loopBody(ai.IVPhi.Block())[call.Block()] {
+						inLoop++
+						loopBlk = call.Block()
+						for _, pr := range ai.IVPhi.Block().Preds {
+							if ai.IVPhi.Block().Dominates(pr) && !call.Block().Dominates(pr) {
+								badA = "the per-word entry is not appended in every iteration"
+							}
+						}
+						continue
+					}
+					after++
+					if stripConv(e.val) != ssa.Value(acc) {
+						badA = "trailing entry is not the final count"
+					}
+					if len(fa.Conds(call.Block())) == 0 {
+						badA = "trailing entry is appended unconditionally"
+					}
+				}
+				if badA == "" && (inLoop != 1 || after != 1) {
+					badA = fmt.Sprintf("expected one append per word and one for the grand total, found %d in the loop and %d after it", inLoop, after)
+				}
+				if badA == "" && ai.IVPhi != nil && loopBlk != nil {
+					if iv, ok := fa.InductionOf(ai.IVPhi, loopBlk); !ok || !iv.FirstConst || iv.First != 0 || iv.Step != 1 || !iv.HasN || !iv.N.Eq(lw) {
+						badA = "the appending loop does not run over every word 0 .. len(words)-1"
+					} else if ee := fa.earlyExit(iv); ee != "" {
+						badA = "the appending loop can be left early: " + ee
+					}
+				}
+				r.Check(badA == "", "R-TRAIL", bn+"|len", w.InstrPos(mk), badA, "append form: one entry per word, grand total appended under the trailing option")
+				r.Check(badA == "", "R-TRAIL", bn+"|total", w.Pos(fn.Pos()), badA, "grand total appended after the loop under the trailing option")
+				break
+			}
 			var forms []string
 			okLen := true
 			n0, n1 := false, false
